@@ -29,6 +29,9 @@
   below `<path>.Env`; `path` itself may carry index groups); `env_exact` keeps its key-only frame clause.
 -/
 import YtkProofs.PipelineFrame
+import YtkProofs.GapPipelineOps
+import YtkProofs.Codec
+import YtkProofs.ValidB
 import YtkProofs.EnvFrame
 import YtkProofs.PipelineDataWF
 import YtkProofs.MergeRel
@@ -40,6 +43,7 @@ import YtkModel.Generated.Constants
 import YtkProofs.Decisions2
 import YtkProofs.GapPipelineData
 import YtkProofs.GapPipelinePatch
+import YtkProofs.GapPatchFrame
 
 namespace Ytk.C13
 
@@ -1559,5 +1563,186 @@ theorem nonvacuous_patchOp_C09_hyps :
     have h1 := Patch.valid_insert h0 ha (k := "a") (by decide)
     exact Patch.valid_insert h1 hb (k := "b") (by decide)
   · intro v hv; cases hv; exact Node.Valid.leaf _
+
+/-! ### round 8, cross-property C12 / C14 ↔ C13: the interpreter executes THESE data operations
+
+  `Ytk.Pipeline.run` (YtkModel/Pipeline.lean — the interpreter of C12 and C14, which the harness compares
+  with whole pipeline executions) has its own transcription of SetOp.Do and TemplateOp.Do; the theorems of
+  this file are about `Ytk.PD` (YtkModel/PipelineData.lean — compared with single operations).  The two
+  transcriptions are the same functions, so every law above holds for the operations as they occur INSIDE a
+  pipeline run (in an action tree, a forEach body, a loop, a callable). -/
+
+/-- SetOp.Do inside the interpreter IS `setOp` of this file with the interpreter's merge for `mergeC` -/
+theorem interp_set_is_setOp (data : Option Node) (path : String) (s : Option String) (d : AMap Node) :
+    Pipeline.setOp data path s d =
+      match setOp Pipeline.mergeKvs d (data.map Pipeline.contOf) path s with
+      | .ok d' => .ok d'
+      | _ => .error (if data.isNone then .noData else .badStrategy) :=
+  Pipeline.setOp_eq_pd data path s d
+
+/-- TemplateOp.Do inside the interpreter IS `templateOp` of this file with the interpreter's renderer
+    (outside `parseAs: yaml`, which the interpreter model does not own) -/
+theorem interp_template_is_templateOp (yp : String → Option (Option YNode)) (t p : String) (tr : Bool)
+    (pa : Option String) (d : AMap Node) (hy : pa ≠ some "yaml") :
+    (Pipeline.templateOp t p tr pa d).1 =
+      (templateOp (fun x => Pipeline.render x d) (fun x => Pipeline.renderLenient x d) Pipeline.trim yp
+        ⟨t, p, pa, tr⟩ d).1 ∧
+    (Pipeline.templateOp t p tr pa d).2.isSome =
+      (templateOp (fun x => Pipeline.render x d) (fun x => Pipeline.renderLenient x d) Pipeline.trim yp
+        ⟨t, p, pa, tr⟩ d).2 :=
+  Pipeline.templateOp_eq_pd yp t p tr pa d hy
+
+/-- one `Execute(SetOp)` of the interpreter, any fuel ≥ 1: it succeeds exactly when `setOp` does, the data
+    afterwards is `setOp`'s document (the callable registry is untouched); otherwise the state is unchanged -/
+theorem interp_set_run (n : Nat) (data : Option Node) (path : String) (s : Option String) (st : Pipeline.St) :
+    (∀ d', setOp Pipeline.mergeKvs st.data (data.map Pipeline.contOf) path s = .ok d' →
+      (Pipeline.run (n + 1) (.op (.set data path s)) st).err = none ∧
+      (Pipeline.run (n + 1) (.op (.set data path s)) st).st.data = d' ∧
+      (Pipeline.run (n + 1) (.op (.set data path s)) st).st.defs = st.defs) ∧
+    ((∀ d', setOp Pipeline.mergeKvs st.data (data.map Pipeline.contOf) path s ≠ .ok d') →
+      (Pipeline.run (n + 1) (.op (.set data path s)) st).err ≠ none ∧
+      (Pipeline.run (n + 1) (.op (.set data path s)) st).st = st) := by
+  simp only [Pipeline.run, Pipeline.wrap, interp_set_is_setOp]
+  cases setOp Pipeline.mergeKvs st.data (data.map Pipeline.contOf) path s with
+  | ok d0 =>
+    refine ⟨fun d' h => ?_, fun h => absurd rfl (h d0)⟩
+    cases h
+    exact ⟨rfl, rfl, rfl⟩
+  | err =>
+    refine ⟨fun d' h => ?_, fun _ => ⟨?_, rfl⟩⟩
+    · cases h
+    · simp [Pipeline.Res.fail]
+  | panic =>
+    refine ⟨fun d' h => ?_, fun _ => ⟨?_, rfl⟩⟩
+    · cases h
+    · simp [Pipeline.Res.fail]
+
+/-- `set_frame` for the operation INSIDE a run: after a successful `Execute(SetOp)` of the interpreter (a
+    container payload, a non-empty target that fits the data of the moment) every path that is not under
+    the target and not on the way to it finds the same node as before — or is a freshly padded slot. -/
+theorem interp_set_frame (n : Nat) (payload : AMap Node) (path q : String) (s : Option String) (st : Pipeline.St)
+    (hp : path ≠ "") (hf : Fits st.data (splitPath path))
+    (h1 : ¬ pathSteps (splitPath path) <+: pathSteps (splitPath q))
+    (h2 : ¬ pathSteps (splitPath q) <+: pathSteps (splitPath path))
+    (hok : (Pipeline.run (n + 1) (.op (.set (some (.cont payload)) path s)) st).err = none) :
+    let d' := (Pipeline.run (n + 1) (.op (.set (some (.cont payload)) path s)) st).st.data
+    lookup d' q = lookup st.data q ∨ (lookup st.data q = none ∧ lookup d' q = some Node.null) := by
+  intro d'
+  have hr := interp_set_run n (some (.cont payload)) path s st
+  simp only [Option.map_some, Pipeline.contOf] at hr
+  cases hs : setOp Pipeline.mergeKvs st.data (some payload) path s with
+  | ok d0 =>
+    have hd : d' = d0 := (hr.1 d0 hs).2.1
+    rw [hd]
+    exact set_frame Pipeline.mergeKvs st.data payload path q s hp hf h1 h2 d0 hs
+  | err => exact absurd hok (hr.2 (fun d' h => by rw [hs] at h; cases h)).1
+  | panic => exact absurd hok (hr.2 (fun d' h => by rw [hs] at h; cases h)).1
+
+/-- non-vacuity: `set_frame`'s list-item instance (`nonvacuous_frame_idx`), executed by the interpreter -/
+theorem nonvacuous_interp_set_frame :
+    (Pipeline.run 1 (.op (.set (some (.cont exPayload)) "a.l[3].b" (some "replace"))) ⟨exList, []⟩).err = none ∧
+    lookup (Pipeline.run 1 (.op (.set (some (.cont exPayload)) "a.l[3].b" (some "replace"))) ⟨exList, []⟩).st.data
+      "a.l[1]" = some Node.null ∧
+    lookup (Pipeline.run 1 (.op (.set (some (.cont exPayload)) "a.l[3].b" (some "replace"))) ⟨exList, []⟩).st.data
+      "a.l[0]" = some (.leaf ⟨"int", "1"⟩) := by
+  decide +kernel
+
+/-! ### round 8, cross-property C13 ↔ C01: the codec contract of `import_export_roundtrip`, factored
+
+  `CodecRoundTrips enc dec norm` bundles two things: the TEXT codec (yaml.v3 / encoding/json: plain value
+  ⇄ bytes — external) and the DOM ⇄ plain-value conversion (`Serialize` = encoder ∘ AsMap,
+  `FromReader` = FromMap ∘ decoder — dom/codec.go, modelled and proved in C01).  Here the contract is asked
+  of the text codec alone, on plain values; the DOM half is C01's theorem `decode_encode`. -/
+
+/-- the text codec of one format on plain values: decoding what was encoded gives the value back up to
+    the codec's own normalisation `normV` (external; e.g. numbers) -/
+def TextCodecRoundTrips (encT : List (String × Val) → List Nat) (decT : List Nat → Option (List (String × Val)))
+    (normV : List (String × Val) → List (String × Val)) : Prop := ∀ m, decT (encT m) = some (normV m)
+
+/-- C01 gives the DOM half: the file decoder `FromMap ∘ decT` undoes the file encoder `encT ∘ AsMap` on
+    every VALID container, up to the text codec's normalisation carried through FromMap / AsMap -/
+theorem codecRoundTrips_of_text (encT : List (String × Val) → List Nat)
+    (decT : List Nat → Option (List (String × Val))) (normV : List (String × Val) → List (String × Val))
+    (ht : TextCodecRoundTrips encT decT normV) :
+    CodecRoundTrips (fun kvs => encT (asMap kvs)) (fun bs => (decT bs).map fromMap)
+      (fun kvs => fromMap (normV (asMap kvs))) := by
+  intro kvs
+  simp [ht (asMap kvs)]
+
+/-- FromMap ∘ AsMap is the identity on valid containers (C01 `decode_encode` at the root) -/
+theorem fromMap_asMap (kvs : AMap Node) (h : (Node.cont kvs).Valid) : fromMap (asMap kvs) = kvs := by
+  have := decode_encode_aux (.cont kvs) h
+  simp only [encodeNode, decodeNode, Node.cont.injEq] at this
+  exact this
+
+/-- Export ∘ Import is the IDENTITY on the subtree: a valid container exported as YAML (resp. JSON) and
+    imported at another path yields the very same subtree, when the text codec returns the plain value it
+    was given (`normV = id`: no number normalisation, e.g. string / bool / null leaves).  Only the text
+    codec is assumed; the DOM conversion is C01's theorem. -/
+theorem import_export_identity (r : String → Option String) (lenient : String → String) (cd : Codecs)
+    (encT : List (String × Val) → List Nat) (decT : List Nat → Option (List (String × Val)))
+    (ht : TextCodecRoundTrips encT decT id) (hcd : cd.yaml = fun bs => (decT bs).map fromMap)
+    (data sub : AMap Node) (p : ValOrRef) (q : String) (hv : (Node.cont sub).Valid)
+    (hsub : lookup data (p.resolve r data) = some (.cont sub)) (hq : lenient q ≠ "") :
+    exportOp r "yaml" (some p) true data = (false, true, some (.doc .yaml sub)) ∧
+    lookup (importOp cd lenient (some (encT (asMap sub))) "yaml" q data).1 (lenient q) = some (.cont sub) := by
+  have hc := codecRoundTrips_of_text encT decT id ht
+  rw [← hcd] at hc
+  have := import_export_roundtrip r lenient cd _ _ hc data sub p q hsub hq
+  simpa [fromMap_asMap sub hv] using this
+
+/-- non-vacuity: a text codec that is the identity on a one-entry "file system" (the bytes are a tag, the
+    decoder returns the stored value): the contract holds, `exData`'s container `a` is valid -/
+theorem nonvacuous_import_export_identity :
+    (Node.cont [("b", .leaf ⟨"int", "1"⟩), ("c", .cont [("d", .leaf ⟨"string", "x"⟩)])]).Valid ∧
+    lookup exData "a" = some (.cont [("b", .leaf ⟨"int", "1"⟩), ("c", .cont [("d", .leaf ⟨"string", "x"⟩)])]) ∧
+    fromMap (asMap [("b", .leaf ⟨"int", "1"⟩), ("c", .cont [("d", .leaf ⟨"string", "x"⟩)])]) =
+      [("b", .leaf ⟨"int", "1"⟩), ("c", .cont [("d", .leaf ⟨"string", "x"⟩)])] := by
+  refine ⟨Node.validB_sound _ (by decide +kernel), by decide +kernel, by decide +kernel⟩
+
+/-! ### round 8: the frame law of PatchOp (clause C13.7, the part that was open) -/
+
+/-- PatchOp changes only its target location.  For add / remove / replace / copy / test over C09's
+    interpreter (hypotheses of `patchOp_refines_C09`): if the (parsed, rendered) target pointer
+    `pre ++ t :: tail` and another pointer `pre ++ u :: qs` part at two different member names `t ≠ u` of
+    the object at `pre`, then what the other pointer resolves to (RFC 6901 evaluation `getTok`) is the same
+    before and after the operation — whether it succeeds or fails.  (Under an ARRAY parent, add / remove
+    shift the later elements by the RFC's own semantics; `move` touches two locations.  Neither is
+    claimed.)  From the frame law of the RFC 6902 reference, `Patch.rfc6902_frame_key`
+    (YtkProofs/GapPatchFrame.lean). -/
+theorem patch_frame (lenient : String → String) (ps : PatchSpec) (data : AMap Node)
+    (call : PatchCall Ptr.Path) (h : patchArgs Ptr.parseS lenient ps data = some call)
+    (ho : Patch.OpOk (c09Obj call)) (hd : (Node.cont data).Valid)
+    (hop : call.op = "add" ∨ call.op = "remove" ∨ call.op = "replace" ∨ call.op = "copy" ∨ call.op = "test")
+    (pre : Ptr.Path) (t u : String) (tail qs : Ptr.Path) (hp : call.path = pre ++ t :: tail) (htu : t ≠ u)
+    (hk : ∃ kvs, Ptr.getTok (.cont data) pre = some (.cont kvs)) :
+    Ptr.getTok (.cont (patchOpC09 lenient ps data).1) (pre ++ u :: qs) =
+      Ptr.getTok (.cont data) (pre ++ u :: qs) := by
+  rw [(patchOp_refines_C09 lenient ps data call h ho hd).2]
+  cases hr : Patch.rfc6902 (c09Obj call) (.cont data) with
+  | none => rfl
+  | some n =>
+    cases n with
+    | cont d' =>
+      exact Patch.rfc6902_frame_key (c09Obj call) (.cont data) (.cont d') pre t u tail qs hop
+        (by simp [c09Obj, hp]) htu hk hr
+    | leaf v => rfl
+    | list xs => rfl
+
+/-- non-vacuity on `exPatchData` = `{a: [1, 2], b: {x: 1}}`: `add /b/y 9` (target under the object `b`)
+    leaves `/b/x` and `/a/1` alone — the hypotheses hold with `pre = [b]`, `t = y`, `u = x` resp.
+    `pre = []`, `t = b`, `u = a` — and the new member is there -/
+theorem nonvacuous_patch_frame :
+    let ps : PatchSpec := ⟨"add", "", "/b/y", some (.leaf ⟨"int", "9"⟩), none⟩
+    (patchArgs Ptr.parseS id ps exPatchData).map (fun c => (c.op, c.from_, c.path, c.value)) =
+      some ("add", none, ["b", "y"], some (.leaf ⟨"int", "9"⟩)) ∧
+    Patch.OpOk (c09Obj ⟨"add", none, ["b", "y"], some (.leaf ⟨"int", "9"⟩)⟩) ∧
+    (∃ kvs, Ptr.getTok (.cont exPatchData) ["b"] = some (.cont kvs)) ∧
+    Ptr.getTok (.cont (patchOpC09 id ps exPatchData).1) ["b", "x"] = some (.leaf ⟨"int", "1"⟩) ∧
+    Ptr.getTok (.cont (patchOpC09 id ps exPatchData).1) ["a", "1"] = some (.leaf ⟨"int", "2"⟩) ∧
+    Ptr.getTok (.cont (patchOpC09 id ps exPatchData).1) ["b", "y"] = some (.leaf ⟨"int", "9"⟩) := by
+  intro ps
+  refine ⟨by decide +kernel, ⟨by decide, ?_⟩, ⟨_, rfl⟩, by decide +kernel, by decide +kernel, by decide +kernel⟩
+  intro v hv; cases hv; exact Node.Valid.leaf _
 
 end Ytk.C13
